@@ -701,9 +701,21 @@ def findFiles (parent : Nat) : List Entry → List SrcFile → List SrcFile
     else findFiles parent rest (pushChild files parent ⟨stem, []⟩)
 end
 
-/-- `FileTree::directory` (the root must contain `pkg.roto`; `none` = read error) -/
-def directory (root : List Entry) : Option (List SrcFile) :=
+/-- the names `find_files` / `process_subdir` turn into module names are
+    identifier-shaped (`valid`); otherwise discovery is a read error ("file name
+    is not a valid Roto identifier") -/
+def namesOk (valid : Name → Bool) : List Entry → Bool
+  | [] => true
+  | .file stem roto :: rest =>
+    (!roto || stem = PKG || stem = MOD || valid stem) && namesOk valid rest
+  | .dir name sub :: rest =>
+    (!hasMod sub || (valid name && namesOk valid sub)) && namesOk valid rest
+
+/-- `FileTree::directory` (the root must contain `pkg.roto`, every module name
+    must be identifier-shaped; `none` = read error) -/
+def directory (valid : Name → Bool) (root : List Entry) : Option (List SrcFile) :=
   if root.any (fun e => match e with | .file stem roto => stem = PKG && roto | _ => false)
+      && namesOk valid root
   then some (findFiles 0 root [⟨PKG, []⟩])
   else none
 
